@@ -290,8 +290,22 @@ class SimSemaphore:
 # ---------------------------------------------------------------- scheduler
 
 
+def call_boundary():
+    """Harness code running inside a simulated thread calls this between two library calls. Under the
+    'entry_sync' schedule the thread waits here until every other live thread has reached a boundary too,
+    then all of them enter their next call together under line-by-line interleaving: races between the
+    first lines of two calls (cache look-ups, lazy initialisation, lock acquisition order) are explored for
+    every pair of calls, not only for the first call of each thread."""
+    s = CURRENT
+    if s is None:
+        return
+    w = s.by_ident.get(_thread.get_ident())
+    if w is not None:
+        s.on_boundary(w)
+
+
 class Worker:
-    __slots__ = ("idx", "fn", "sem", "thread", "done", "blocked_on", "result", "steps", "where")
+    __slots__ = ("idx", "fn", "sem", "thread", "done", "blocked_on", "result", "steps", "where", "at_boundary")
 
     def __init__(self, idx, fn):
         self.idx = idx
@@ -303,6 +317,7 @@ class Worker:
         self.result = None
         self.steps = 0
         self.where = ("<start>", 0)
+        self.at_boundary = False
 
 
 class Scheduler:
@@ -335,6 +350,9 @@ class Scheduler:
         # pct
         self._prio = None
         self._change_points = ()
+        # entry_sync
+        self._phase = "gather"
+        self._fine_until = -1
         # starve
         self._victim = self.spec.get("victim", 0)
         self._stall = self.spec.get("stall", 0)
@@ -368,6 +386,21 @@ class Scheduler:
             return self.rng.choice(run), self.rng.choice(self.BUDGETS)
         if k == "roundrobin":
             return run[0], 1 << 60
+        if k == "entry_sync":
+            if self._phase == "fine":
+                if self.steps < self._fine_until:
+                    return self.rng.choice(run), self.rng.choice([1, 1, 2, 3])
+                self._phase = "gather"
+            moving = [w for w in run if not w.at_boundary]
+            if moving:
+                # bring every live thread to its next call boundary, one call at a time
+                return (cur if (cur is not None and cur in moving) else moving[0]), 1 << 60
+            # everyone is at a boundary: release them together, line by line
+            for w in run:
+                w.at_boundary = False
+            self._phase = "fine"
+            self._fine_until = self.steps + self.spec.get("fine_steps", 100)
+            return self.rng.choice(run), self.rng.choice([1, 1, 2, 3])
         if k == "fine_start":
             # line-by-line interleaving while the calls are young (cache look-ups and initialisation
             # happen in the first lines of a call), coarse afterwards
@@ -398,6 +431,13 @@ class Scheduler:
         self.budget -= 1
         if self.budget <= 0:
             self._yield(w)
+
+    def on_boundary(self, w):
+        if self.kind != "entry_sync" or self.aborted or self._phase != "gather":
+            return
+        w.at_boundary = True
+        w.where = ("<call boundary>", 0)
+        self._yield(w)
 
     def _close_segment(self):
         if self.current is not None and self.seg_steps > 0:
